@@ -703,7 +703,9 @@ def check_c05(tr):
                     f.append({'kind': 'indication-without-request', 'node': node, 'src': src, 'invoke': inv})
                 continue
             want = req_payload(no, reqs[no]['len'])
-            if data != want:
+            # a late copy of an earlier request that used the same (client, id) is indistinguishable on the wire
+            older = [req_payload(n2, reqs[n2]['len']) for (p2, n2) in m.get((src, node, inv), []) if p2 <= pos]
+            if data != want and data not in older:
                 f.append({'kind': 'request-payload-differs', 'req': no, 'got_len': len(data), 'want_len': len(want),
                           'first_diff': next((i for i in range(min(len(data), len(want))) if data[i] != want[i]), min(len(data), len(want)))})
         elif e[0] == 'conf' and e[4] in (3, 5):
@@ -712,7 +714,8 @@ def check_c05(tr):
             if no is None:
                 continue
             exp = expected_response(tr, reqs[no])
-            if exp is None or exp[0] != ty or data != exp[1]:
+            older = [expected_response(tr, reqs[n2]) for (p2, n2) in m.get((node, src, inv), []) if p2 <= pos]
+            if (exp is None or exp[0] != ty or data != exp[1]) and not any(o is not None and o[0] == ty and o[1] == data for o in older):
                 f.append({'kind': 'response-payload-differs', 'req': no, 'type': ty, 'got_len': len(data),
                           'want_len': len(exp[1]) if exp else -1})
     # 2. wire discipline of every segmented transfer
@@ -769,11 +772,10 @@ def check_c05(tr):
                 if j != 0:
                     f.append({'kind': 'segment-before-first-ack', 'req': no, 'frame': i, 'index': j})
             else:
-                _, aseq, awin, anak = seen[-1]
-                base_c = [b for b in range(aseq, n + 256, 256)]
-                base = min(base_c, key=lambda c: abs(c - j)) if base_c else aseq
-                if j == 0 and len(seen) >= 1 and all(a[1] == 0 for a in seen) is False and False:
-                    pass
+                # acknowledgements are cumulative: the base is the highest index acknowledged so far (a late copy of an
+                # old ack does not move it back); the window is the one announced by the newest ack
+                awin = seen[-1][2]
+                base = max(min(range(a[1], n + 256, 256), key=lambda c: abs(c - j)) for a in seen)
                 if not (j <= base + awin) and not (j == 0):
                     f.append({'kind': 'window-exceeded', 'req': no, 'frame': i, 'index': j, 'acked': base, 'window': awin})
             hi = max(hi, j)
@@ -796,15 +798,17 @@ def check_c11(tr):
     res, unmatched, sub = request_outcomes(tr)
     for no, outs in res.items():
         r = reqs[no]
-        exp = expected_response(tr, r)
         for (pos, o) in outs:
             _, t, node, src, ty, inv, data, reason = o
             if src != r['dst']:
                 f.append({'kind': 'outcome-from-other-peer', 'req': no, 'src': src})
+            # the answer to this request, or (a late copy of) the answer to an earlier request that used the same (peer, id):
+            # those two cannot be told apart on the wire
+            exps = [expected_response(tr, reqs[n2]) for (p2, n2) in m.get((r['src'], r['dst'], inv), []) if p2 <= pos]
             if ty in (3, 5):
-                if exp is None or exp[0] != ty or exp[1] != data:
+                if not any(e is not None and e[0] == ty and e[1] == data for e in exps):
                     f.append({'kind': 'outcome-is-not-the-answer-to-this-request', 'req': no, 'type': ty})
-            if ty in (2, 6) and (exp is None or exp[0] != ty):
+            if ty in (2, 6) and not any(e is not None and e[0] == ty for e in exps):
                 f.append({'kind': 'outcome-is-not-the-answer-to-this-request', 'req': no, 'type': ty})
     for (pos, e) in unmatched:
         f.append({'kind': 'reply-delivered-without-live-request', 'node': e[2], 'src': e[3], 'invoke': e[5], 'type': e[4]})
@@ -914,8 +918,10 @@ def check_c12(tr):
                 if ty == 0 and h['seg'] == 1 and k is not None and k.get('seg') not in ('segmentedReceive', 'segmentedBoth'):
                     f.append({'kind': 'segmented-request-to-incapable-peer', 'frame': fr['idx'], 'peer_seg': k.get('seg')})
             if limit is not None and fr['enc_len'] > limit:
+                kk = (c.get('know') or {}).get(dst) or (c.get('know') or {}).get(str(dst)) or {}
                 f.append({'kind': 'apdu-longer-than-peer-max', 'frame': fr['idx'], 'role': frame_role(fr), 'enc_len': fr['enc_len'],
-                          'limit': limit, 'payload_len': len(fr['data']), 'resp_dir': resp_dir})
+                          'limit': limit, 'payload_len': len(fr['data']), 'resp_dir': resp_dir, 'src': src, 'dst': dst,
+                          'sender_iam_value': kk.get('maxApdu')})
             if (ty in (0, 3) and h['seg'] == 1) or ty == 4:
                 if not (1 <= h['win'] <= 127):
                     f.append({'kind': 'window-out-of-range', 'frame': fr['idx'], 'role': frame_role(fr), 'win': h['win']})
@@ -1029,7 +1035,10 @@ def gen_transaction(rng, big=False, maxfaults=2):
 def single_fault_family(rng, nodes=None, req=None, kinds=('drop', 'dup', 'delay500', 'latedup')):
     """fault-free baseline + every single fault at every frame index"""
     nodes = nodes or rand_nodes(rng, same_timeouts=True)
-    spec = {'nodes': nodes, 'requests': [req or rand_request(rng, nodes, kinds=['complex'] * 4 + ['simple'])]}
+    if req is None:
+        req = rand_request(rng, nodes, kinds=['complex'] * 4 + ['simple'])
+        req['resp_delay'] = 0        # the application answers at once: only the network misbehaves
+    spec = {'nodes': nodes, 'requests': [req]}
     base = run_scenario(spec)
     out = [(spec, None, base)]
     for i in range(len(base.frames)):
@@ -1238,3 +1247,137 @@ def scenario_case(spec, kind):
     exp = canon_trace(tr)
     nontrivial = len(tr.frames) >= 1
     return Case(kind, coq_spec(spec), exp, key=repr(sorted(spec.items(), key=lambda kv: kv[0])), nontrivial=nontrivial, desc={'spec': spec})
+
+
+# ---------------------------------------------------------------------------------------------
+# shared plumbing of harness/props/c04.py, c05.py, c11.py, c12.py
+
+COQ_IMPORTS = 'From Bac Require Import Base Ssm SsmWorld.'
+TRUSTED = ['models coq/theories/Ssm.v (SSM/ClientSSM/ServerSSM/StateMachineAccessPoint, appservice.py:43-1380) and SsmWorld.v '
+           '(scripted medium, TaskManager (time, counter) order, scripted applications) written by hand; tie = whole-trace correspondence',
+           'harness/ssm_common.py: the scripted medium, virtual clock (bacpypes.task._time), applications and trace canonicaliser',
+           'apdu.APCI.encode/decode (C07) is used by the harness to put frames on the wire and read their headers back']
+ASSUMPTIONS = ['timeouts are multiples of 125 ms (exact binary fractions of a second), every header field fits one octet',
+               'one TaskManager per process, reset between scenarios; link layer replaced by the scripted medium (no NPDU header)',
+               'DeviceInfoCache reference counts and the in-place upgrade of device_info.segmentationSupported in ServerSSM.idle are not modelled '
+               '(no scenario uses a node both as server and as client towards the same peer)']
+
+
+def run_checked(spec, checker, max_steps=20000):
+    tr = run_scenario(spec, max_steps=max_steps)
+    fs = checker(tr)
+    for f in fs:
+        f['spec'] = spec
+    return tr, fs
+
+
+def spec_key(spec):
+    import json
+    return json.dumps(spec, sort_keys=True, default=str)
+
+
+def fix_spec(spec):
+    """JSON turns the integer keys of know / faults into strings: undo"""
+    spec = dict(spec)
+    spec['nodes'] = [dict(n, know={int(k): v for k, v in (n.get('know') or {}).items()}) for n in spec['nodes']]
+    if spec.get('faults'):
+        spec['faults'] = {int(k): v for k, v in spec['faults'].items()}
+    return spec
+
+
+def replay_generic(payload, checker, name):
+    f = payload.get('failure') or {}
+    spec = f.get('spec')
+    if spec is None:
+        mc = (payload.get('broken') or [{}])[0]
+        mc = mc.get('minimal_case', {}) if isinstance(mc, dict) else {}
+        spec = (mc.get('desc') or {}).get('spec')
+    if spec is None:
+        print('replay: no scenario in this file')
+        return
+    spec = fix_spec(spec)
+    tr = run_scenario(spec)
+    print('scenario:', spec_key(spec))
+    for e in tr.events:
+        if e[0] == 'tx':
+            fr = tr.frames[e[2]]
+            print('  tx', fr['idx'], 't=%d' % fr['t'], fr['src'], '->', fr['dst'], frame_role(fr),
+                  {k: v for k, v in fr['hdr'].items() if v != -1}, 'len', len(fr['data']), 'apdu', fr['enc_len'], 'fate', fr['fate'])
+        elif e[0] in ('ind', 'conf'):
+            print(' ', e[0], e[1:6], 'len', len(e[6]), 'reason', e[7])
+        elif e[0] != 'state':
+            print(' ', e)
+    print('residue:', tr.residue)
+    print('%s predicate on the implementation trace:' % name)
+    for x in checker(tr):
+        print('  FAIL', {k: v for k, v in x.items() if k != 'spec'})
+    import core
+    got, err = core.coq_eval(COQ_IMPORTS, coq_spec(spec))
+    exp = canon_trace(run_scenario(spec, max_steps=CASE_MAX_STEPS))
+    print('model trace equals implementation trace:', got == exp)
+    if got != exp:
+        print('implementation:', exp[:400])
+        print('model         :', (got or [])[:400], err)
+
+
+def max_transfer_segments(tr):
+    """largest number of segments any transfer of the trace needs (from the wire: full length / segment size)"""
+    reqs = _req_by_no(tr)
+    best = 0
+    for (src, dst, inv, ty, no), idxs in transfers(tr).items():
+        if no is None:
+            continue
+        full = reqs[no]['len'] if ty == 0 else len((expected_response(tr, reqs[no]) or (0, b''))[1])
+        sizes = [len(tr.frames[i]['data']) for i in idxs if tr.frames[i]['hdr']['mor'] == 1]
+        if sizes and min(sizes) > 0:
+            best = max(best, nsegs(full, min(sizes)))
+    return best
+
+
+def direct_families(rng, families, checker, focus=(), extra=None):
+    """families: list of (name, generator(rng) -> spec, count).  Returns (failures, stats)."""
+    failures, n, nontriv, hist, samples = [], 0, set(), {}, []
+    for name, gen, count in families:
+        for _ in range(count):
+            spec = gen(rng)
+            tr, fs = run_checked(spec, checker)
+            n += 1
+            hist[name] = hist.get(name, 0) + 1
+            if tr.frames:
+                nontriv.add(spec_key(spec))
+            for f in fs:
+                f['family'] = name
+                f['max_nsegs'] = max_transfer_segments(tr)
+            failures.extend(fs)
+            if len(samples) < 3 and tr.frames:
+                samples.append({'direct': name, 'frames': len(tr.frames), 'end_ms': tr.end_t,
+                                'outcomes': [[e[4], e[7]] for e in tr.events if e[0] == 'conf'][:4]})
+    for d in focus or ():
+        if isinstance(d, dict) and 'spec' in d:
+            spec = fix_spec(d['spec'])
+            tr, fs = run_checked(spec, checker)
+            n += 1
+            for f in fs:
+                f['family'] = 'focus'
+                f['max_nsegs'] = max_transfer_segments(tr)
+            failures.extend(fs)
+    return failures, {'evaluations': n, 'distinct_nontrivial': len(nontriv), 'families': hist, 'samples': samples}
+
+
+def known_replays(prop, checker, max_steps=8000):
+    """the canonical replays of the recorded known findings are evaluated on every run"""
+    import core, json
+    out = []
+    for e in core.load_findings(prop):
+        if e.get('status') != 'known':
+            continue
+        spec = ((e.get('replay') or {}).get('failure') or {}).get('spec')
+        if not spec:
+            continue
+        spec = fix_spec(json.loads(json.dumps(spec)))
+        tr, fs = run_checked(spec, checker, max_steps=max_steps)
+        for f in fs:
+            f['family'] = 'known-replay'
+            f['max_nsegs'] = max_transfer_segments(tr)
+        out.extend(fs)
+    return out
